@@ -714,7 +714,7 @@ def run(run, model):
         mir = None
     if mir is not None:
         run.try_rule(c06.r06_1, model, mir)
-    for fn_ in (c06.r06_3, c06.r06_4, c06.r06_5, c06.r06_9, c07.r07_1, (lambda r, m: c07.r07_2(r, m, None, "C01")), c07.r07_3, c07.r07_4, c07.r07_5, c07.r07_6,
+    for fn_ in (c06.r06_17, c06.r06_3, c06.r06_4, c06.r06_5, c06.r06_9, c07.r07_1, (lambda r, m: c07.r07_2(r, m, None, "C01")), c07.r07_3, c07.r07_4, c07.r07_5, c07.r07_6,
                 c08.r08_1, c08.r08_2, c08.r08_3, c09.r09_2, c09.r09_4, c09.r09_5, c10.r10_3, c10.r10_8, c10.r10_21, c02.r02_8):
         run.try_rule(fn_, model)
     from rules import c11
